@@ -778,6 +778,25 @@ func (r *Runner) finishStep(st *Step) {
 	} else {
 		st.Events = r.lastEvents
 	}
+	// reach probes for counts that default page sizes and loop bounds care about
+	if len(st.Post.Dels) > 100 {
+		r.Probe("scale_over_100_delegation_records")
+	}
+	if len(st.Post.UndelQueue) > 100 {
+		r.Probe("scale_over_100_unbonding_buckets")
+	}
+	if len(st.Post.UndelIdx) > 100 {
+		perVal := map[string]int{}
+		for _, ix := range st.Post.UndelIdx {
+			perVal[ix.Val]++
+			if perVal[ix.Val] == 101 {
+				r.Probe("scale_over_100_unbonding_index_keys_of_one_validator")
+			}
+		}
+	}
+	if st.Kind == "end" && st.Pre != nil && len(st.Pre.UndelQueue)-len(st.Post.UndelQueue) > 100 {
+		r.Probe("scale_over_100_buckets_matured_in_one_block")
+	}
 	st.Slashes = r.orderSlashes(newSlashes(st.Pre, st.Post), st.Events)
 	for _, so := range st.Slashes {
 		r.Fault("slash_reached_hooks")
